@@ -3,6 +3,10 @@
 import json, subprocess
 
 CLAIMS = {
+ "C02": dict(
+   text="Lean theorems over a call-stream model of sequential pipelines (each Go closure = a function on the list of results of successive calls): for every operator tree without a failing non-last Join/Chain operand the values equal the functional specification (filter/map/concat/identity/dedupe-first/enumerate/flatten, truncated at the first non-skip user error), the specification is always a prefix of what the code yields, a skip removes exactly one element, an error truncates, iterators are sticky after their first error, Count/JSON/Reduce agree with the specification; the full statement is refuted by kernel-checked witnesses for Join and Chain (open finding). Tied by a differential run over random operator trees with injected skip/error/EOF/abort positions, plus the specification itself as independent oracle",
+   note="trusted: Lean kernel; hand-written FunModel/Stream.lean; goroutine-backed identity stages modelled by their sequential value semantics (C01/C04 cover their concurrency); context never cancelled; open finding: Join/Chain continue after operand failure",
+   ref="DESIGN.md §5 C02"),
  "C12": dict(
    text="Lean theorems (structural induction over unbounded error trees) that Stack.Push/Join/Resolve/Unwind/ParsePanic/Wrap/Collector keep exactly the supplied constituents, each once, most recent first, and that errors.Is/As on the result agree with the constituents; the hand-written model is tied to ers/erc by a differential run on random error trees built from real Go error values, with an independent property oracle on every implementation observation",
    note="trusted: Lean kernel; hand-written model FunModel/Err.lean (validated against ers/erc every run, not generated); errors.Is/As of the Go stdlib modelled; Collector atomicity assumed from its mutex (C13)",
